@@ -244,6 +244,7 @@ def check_globs_merge(ctx, out, rule="C15.globs"):
     n = 0
     cands = [b for b in ctx.reachable_bodies() if b.promoted is None and re.search(r"flags::Args::\w+$", b.id) and "GlobSet" in b.local_ty(0)]
     for b in cands:
+        b = ctx.inl(b, skip=ctx.domain_api, tag="domain", sugar=True)     # a shared `compile(patterns)` helper is looked through
         for bi, t in b.calls():
             if callee_matches(t, r"globset::Glob::new$"):
                 labs = ctx.prov.read_operand(b, t["args"][0])
